@@ -13,8 +13,8 @@ import NmVerif.Lemmas.Static
                             knowledge and the operation (NumPy reference shape function) yields `t`, then `t` is an
                             instance of the inferred knowledge — for ALL shapes, ranks and arguments;
     * `result_buffer_fits`  consequently a buffer of `bounded_size` (or `fixed_size`) elements holds the whole result;
-    * `…_counterexample`    the two places where the real metafunctions are NOT sound (known findings): the theorem
-                            domain excludes exactly those kind combinations.
+    (the three metafunctions that were unsound for clipped shapes — broadcast_shape, shape_take, shape_squeeze — were
+    repaired in /repo; the transfer functions mirror the repaired code and carry no kind side conditions)
 -/
 namespace NmVerif.Props.C11
 open NmVerif NmVerif.Static
@@ -131,9 +131,7 @@ theorem broadcast_to_static_sound {i o : SInfo} {s t : Shape} {k : ArrK} {targ :
 
 example : refBroadcastTo [2, 2, 3] [1, 3] = some [2, 2, 3] := by decide
 
-/-- squeeze, for operands whose shape knowledge is not of clipped kind (for clipped operands the real metafunction
-    squeezes the maxima: `squeeze_clipped_counterexample`) -/
-theorem squeeze_static_sound {i o : SInfo} {s : Shape} (h : i.γ s) (hnc : ∀ b, i.shape ≠ .clipped b)
+theorem squeeze_static_sound {i o : SInfo} {s : Shape} (h : i.γ s)
     (ho : transferSqueeze i = some o) : o.γ (refSqueeze s) := by
   have hs := seen_sound h
   have hp : prod (refSqueeze s) = prod s := prod_filter_ne_one s
@@ -144,7 +142,10 @@ theorem squeeze_static_sound {i o : SInfo} {s : Shape} (h : i.γ s) (hnc : ∀ b
   rw [seen_shape] at hsh ⊢
   cases hk : i.shape with
   | const l => simp only [hk, ShapeK.γ] at hsh; subst hsh; simp [ShapeK.γ]
-  | clipped b => exact absurd hk (hnc b)
+  | clipped b =>
+    simp only [hk, ShapeK.γ] at hsh
+    have := hsh.length_eq
+    by_cases hk0 : b.length > 0 <;> simp [hk0, ShapeK.γ]; omega
   | fixedDim k =>
     simp only [hk, ShapeK.γ] at hsh
     by_cases hk0 : k > 0 <;> simp [hk0, ShapeK.γ]; omega
@@ -153,12 +154,9 @@ theorem squeeze_static_sound {i o : SInfo} {s : Shape} (h : i.γ s) (hnc : ∀ b
     by_cases hk0 : k > 0 <;> simp [hk0, ShapeK.γ]; omega
   | dyn => simp [ShapeK.γ]
 
-/-- known finding C11.squeeze-clipped: the clipped type admits `[1,1,2]`, the squeezed instance `[2]` is not an instance
-    of the inferred knowledge (rank 2, bounds [2,3]) -/
-theorem squeeze_clipped_counterexample :
-    (⟨.clipped [2, 1, 3], .atMost 6⟩ : SInfo).γ [1, 1, 2] ∧
-    ∃ o, transferSqueeze ⟨.clipped [2, 1, 3], .atMost 6⟩ = some o ∧ ¬ o.γ (refSqueeze [1, 1, 2]) := by
-  refine ⟨by decide, ⟨.clipped [2, 3], .atMost 6⟩, by decide, by decide⟩
+/-- the instance that used to break the inference (clipped maxima [2,1,3], run-time shape [1,1,2]) -/
+example : transferSqueeze ⟨.clipped [2, 1, 3], .atMost 6⟩ = some ⟨.boundedDim 3, .atMost 6⟩ ∧
+    (⟨.boundedDim 3, .atMost 6⟩ : SInfo).γ (refSqueeze [1, 1, 2]) := by decide
 
 theorem ufunc1_static_sound {i o : SInfo} {s : Shape} (h : i.γ s) (ho : transferUfunc1 i = some o) : o.γ s := by
   have hs := seen_sound h
@@ -399,11 +397,9 @@ example : transferReduce (.rts) false ⟨.boundedDim 3, .atMost 24⟩ = some ⟨
 
 /-! ### broadcasting binary views (ufunc with two array operands) -/
 
-/-- the kind combinations on which `resolve_optype<broadcast_shape_t>` is sound: an operand of CLIPPED shape is only
-    combined with an operand whose shape type is constant or clipped (otherwise the maxima of the clipped operand are
-    read as if they were its extents: `ufunc2_clipped_runtime_counterexample`) -/
-def Ufunc2Dom (i j : SInfo) : Prop :=
-  (∀ m, i.shape = .clipped m → j.shape.cvalue ≠ none) ∧ (∀ m, j.shape = .clipped m → i.shape.cvalue ≠ none)
+theorem const_of_isConst {A : ShapeK} {a va : Shape} (hA : A.γ a) (hc : A.cvalue = some va) (hi : A.isConst = true) : a = va := by
+  cases A <;> simp [ShapeK.isConst] at hi
+  simp only [ShapeK.cvalue, Option.some.injEq] at hc; subst hc; exact hA
 
 theorem cvalue_leAll {A : ShapeK} {a va : Shape} (hA : A.γ a) (hc : A.cvalue = some va) : LeAll a va := by
   cases A <;> simp only [ShapeK.cvalue, Option.some.injEq] at hc <;> try (simp at hc)
@@ -450,113 +446,92 @@ theorem bcastStaticArray_sound' {a vb t : Shape} {ba : Nat} (hp : Pos vb) (hl : 
     subst this
     exact leAll_replicate (fun x hx => (le_foldl_max t 0).2 x hx)
 
+theorem bcastLenK_sound {la lb : LenK} {n m : Nat} {t : Shape} (ha : la.γ n) (hb : lb.γ m) (ht : t.length = max n m) :
+    (bcastLenK la lb).γ t := by
+  cases la <;> cases lb <;> simp only [bcastLenK, ShapeK.γ, LenK.γ] at * <;> omega
+
+theorem constv?_eq {A : ShapeK} {a va : Shape} (hA : A.γ a) (hc : A.constv? = some va) : a = va := by
+  cases A <;> simp [ShapeK.constv?] at hc
+  subst hc; exact hA
+
 theorem broadcastShapeK_sound {A B k : ShapeK} {a b t : Shape} (hA : A.γ a) (hB : B.γ b) (hpa : Pos a) (hpb : Pos b)
-    (hdomA : ∀ m, A = .clipped m → B.cvalue ≠ none) (hdomB : ∀ m, B = .clipped m → A.cvalue ≠ none)
     (hr : refBroadcast a b = some t) (hk : broadcastShapeK A B = some k) : k.γ t := by
   have hlen := refBroadcast_length hr
   have hLa := lenK_sound hA
   have hLb := lenK_sound hB
   unfold broadcastShapeK at hk
-  cases hca : A.cvalue with
-  | some va =>
+  split at hk
+  · rename_i va vb hca hcb
     have hlea := cvalue_leAll hA hca
-    cases hcb : B.cvalue with
-    | some vb =>
-      have hleb := cvalue_leAll hB hcb
-      simp only [hca, hcb] at hk
-      cases hrv : refBroadcast va vb with
-      | some r =>
-        simp only [hrv, Option.some.injEq] at hk; subst hk
-        split
-        · rename_i hcc
-          simp only [Bool.and_eq_true] at hcc
-          -- both constant: the run-time shapes ARE the static values
-          have ha : a = va := by cases A <;> simp [ShapeK.isConst] at hcc <;> simp only [ShapeK.cvalue, Option.some.injEq] at hca <;> (subst hca; exact hA)
-          have hb : b = vb := by cases B <;> simp [ShapeK.isConst] at hcc <;> simp only [ShapeK.cvalue, Option.some.injEq] at hcb <;> (subst hcb; exact hB)
-          subst ha hb
-          rw [hr] at hrv; simp only [Option.some.injEq] at hrv; subst hrv; rfl
-        · exact refBroadcast_leAll hlea hleb hr hrv
-      | none =>
-        simp only [hrv] at hk
-        split at hk
-        · simp at hk
-        · simp only [Option.some.injEq] at hk; subst hk
-          simp only [ShapeK.γ]; rw [hlen, hlea.length_eq, hleb.length_eq]
+    have hleb := cvalue_leAll hB hcb
+    cases hrv : refBroadcast va vb with
+    | some r =>
+      simp only [hrv, Option.some.injEq] at hk; subst hk
+      split
+      · rename_i hcc
+        simp only [Bool.and_eq_true] at hcc
+        have ha := const_of_isConst hA hca hcc.1
+        have hb := const_of_isConst hB hcb hcc.2
+        subst ha hb
+        rw [hr] at hrv; simp only [Option.some.injEq] at hrv; subst hrv; rfl
+      · exact refBroadcast_leAll hlea hleb hr hrv
     | none =>
-      -- A has static values, B is run-time: A must be constant (domain), so a = va
-      have ha : a = va := by
-        cases A with
-        | const l => simp only [ShapeK.cvalue, Option.some.injEq] at hca; subst hca; exact hA
-        | clipped m => exact absurd hcb (hdomA m rfl)
-        | fixedDim n => simp [ShapeK.cvalue] at hca
-        | boundedDim n => simp [ShapeK.cvalue] at hca
-        | dyn => simp [ShapeK.cvalue] at hca
-      subst ha
-      simp only [hca, hcb] at hk
+      simp only [hrv] at hk
+      split at hk
+      · simp at hk
+      · simp only [Option.some.injEq] at hk; subst hk
+        simp only [ShapeK.γ]; rw [hlen, hlea.length_eq, hleb.length_eq]
+  · split at hk
+    · -- constant left operand: a IS its static value
+      rename_i va _ hcv
+      have ha := constv?_eq hA hcv; subst ha
+      simp only [Option.some.injEq] at hk; subst hk
       cases hlb : B.lenK with
       | fixed lb =>
-        simp only [hlb, Option.some.injEq] at hk; subst hk
         simp only [hlb, LenK.γ] at hLb
+        simp only [bcastConstRt]
         split
         · rename_i hge; exact bcastStaticTuple_sound hge hLb hr
         · simp only [ShapeK.γ]; rw [hlen, hLb]
       | bounded bb =>
-        simp only [hlb, Option.some.injEq] at hk; subst hk
         simp only [hlb, LenK.γ] at hLb
+        simp only [bcastConstRt]
         split
         · rename_i hge; exact bcastStaticArray_sound hpa hge hLb hr
         · simp only [ShapeK.γ]; rw [hlen]; omega
-      | dyn => simp only [hlb, Option.some.injEq] at hk; subst hk; trivial
-  | none =>
-    cases hcb : B.cvalue with
-    | some vb =>
-      have hb : b = vb := by
-        cases B with
-        | const l => simp only [ShapeK.cvalue, Option.some.injEq] at hcb; subst hcb; exact hB
-        | clipped m => exact absurd hca (hdomB m rfl)
-        | fixedDim n => simp [ShapeK.cvalue] at hcb
-        | boundedDim n => simp [ShapeK.cvalue] at hcb
-        | dyn => simp [ShapeK.cvalue] at hcb
-      subst hb
-      simp only [hca, hcb] at hk
+      | dyn => simp [bcastConstRt, ShapeK.γ]
+    · rename_i vb _ hcv
+      have hb := constv?_eq hB hcv; subst hb
+      simp only [Option.some.injEq] at hk; subst hk
       cases hla : A.lenK with
       | fixed la =>
-        simp only [hla, Option.some.injEq] at hk; subst hk
         simp only [hla, LenK.γ] at hLa
+        simp only [bcastRtConst]
         split
         · rename_i hge; exact bcastStaticTuple_sound' hge hLa hr
         · simp only [ShapeK.γ]; rw [hlen, hLa]
       | bounded ba =>
-        simp only [hla, Option.some.injEq] at hk; subst hk
         simp only [hla, LenK.γ] at hLa
+        simp only [bcastRtConst]
         split
         · rename_i hge; exact bcastStaticArray_sound' hpb hge hLa hr
         · simp only [ShapeK.γ]; rw [hlen]; omega
-      | dyn => simp only [hla, Option.some.injEq] at hk; subst hk; trivial
-    | none =>
-      simp only [hca, hcb] at hk
-      cases hla : A.lenK <;> cases hlb : B.lenK <;> simp only [hla, hlb, Option.some.injEq] at hk hLa hLb <;> subst hk <;>
-        simp only [ShapeK.γ, LenK.γ] at * <;> (try omega)
+      | dyn => simp [bcastRtConst, ShapeK.γ]
+    · simp only [Option.some.injEq] at hk; subst hk
+      exact bcastLenK_sound hLa hLb hlen
 
-/-- binary broadcasting view (`view::add(a, b)` ...), positive extents, sound kind combinations -/
+/-- binary broadcasting view (`view::add(a, b)` ...), positive extents, every kind combination -/
 theorem ufunc2_static_sound {i j o : SInfo} {a b t : Shape} (hi : i.γ a) (hj : j.γ b) (hpa : Pos a) (hpb : Pos b)
-    (hdom : Ufunc2Dom i j) (hr : refBroadcast a b = some t) (ho : transferUfunc2 i j = some o) : o.γ t := by
+    (hr : refBroadcast a b = some t) (ho : transferUfunc2 i j = some o) : o.γ t := by
   simp only [transferUfunc2, seen_shape, Option.map_eq_some_iff] at ho
   obtain ⟨k, hk, rfl⟩ := ho
-  exact ufuncInfo_sound (broadcastShapeK_sound hi.1 hj.1 hpa hpb hdom.1 hdom.2 hr hk) trivial
+  exact ufuncInfo_sound (broadcastShapeK_sound hi.1 hj.1 hpa hpb hr hk) trivial
 
 example : refBroadcast [2, 1] [3] = some [2, 3] := by decide
-example : Ufunc2Dom ⟨.clipped [2, 1], .any⟩ ⟨.const [3], .known 3⟩ := by
-  constructor <;> intro m hm <;> simp [ShapeK.cvalue] at *
 example : transferUfunc2 ⟨.clipped [2, 1], .any⟩ ⟨.const [3], .known 3⟩ = some ⟨.clipped [2, 3], .atMost 6⟩ := by decide
-
-/-- known finding C11.broadcast-clipped-vs-runtime: `add(cl[2,3], fd)` at run-time shapes (1,1) and (3,2): the result
-    (3,2) is not an instance of the inferred clipped bound [2,3] (bounded size 6 happens to hold, the per-axis bound not) -/
-theorem ufunc2_clipped_runtime_counterexample :
-    (⟨.clipped [2, 3], .atMost 6⟩ : SInfo).γ [1, 1] ∧ (⟨.fixedDim 2, .any⟩ : SInfo).γ [3, 2] ∧
-    refBroadcast [1, 1] [3, 2] = some [3, 2] ∧
-    ∃ o, transferUfunc2 ⟨.clipped [2, 3], .atMost 6⟩ ⟨.fixedDim 2, .any⟩ = some o ∧ ¬ o.γ [3, 2] := by
-  refine ⟨by decide, by decide, by decide, ⟨.clipped [2, 3], .atMost 6⟩, by decide, by decide⟩
+/-- the pair that used to break the inference: clipped [2,3] at (1,1) against a run-time (3,2) -/
+example : transferUfunc2 ⟨.clipped [2, 3], .atMost 6⟩ ⟨.fixedDim 2, .any⟩ = some ⟨.fixedDim 2, .any⟩ ∧
+    refBroadcast [1, 1] [3, 2] = some [3, 2] ∧ (⟨.fixedDim 2, .any⟩ : SInfo).γ [3, 2] := by decide
 
 /-! ### concatenate (decorator default: sizes are the sums of the operands' sizes) -/
 
@@ -600,10 +575,6 @@ theorem staticAxis?_eq {k : AxisK} {axis ax : Option Nat} (hk : concatAxisOk k a
   · subst hk hs; rfl
   · subst hk hs; rfl
   all_goals simp at hs
-
-theorem const_of_isConst {A : ShapeK} {a va : Shape} (hA : A.γ a) (hc : A.cvalue = some va) (hi : A.isConst = true) : a = va := by
-  cases A <;> simp [ShapeK.isConst] at hi
-  simp only [ShapeK.cvalue, Option.some.injEq] at hc; subst hc; exact hA
 
 theorem concatShapeK_sound {i j : SInfo} {d : ShapeK} {a b t : Shape} {k : AxisK} {axis : Option Nat}
     (hi : i.γ a) (hj : j.γ b) (hk : concatAxisOk k axis) (hr : refConcat axis a b = some t)
@@ -705,7 +676,7 @@ def Prog.shape (env : Nat → Shape) : Prog → Option Shape
   | .concat _ axis p q => (p.shape env).bind (fun a => (q.shape env).bind (fun b => refConcat axis a b))
 
 /-- side conditions: leaf shapes are instances of the leaf types, argument values are admitted by their kinds,
-    extents are positive where the property needs it, and the two unsound kind combinations do not occur -/
+    extents are positive where the property needs it -/
 def Prog.ok (env : Nat → Shape) : Prog → Prop
   | .leaf i idx => i.γ (env idx)
   | .transpose k axes p => p.ok env ∧ axesOk k axes
@@ -714,11 +685,10 @@ def Prog.ok (env : Nat → Shape) : Prog → Prop
   | .broadcastTo k targ p => p.ok env ∧ k.γ targ
   | .tile k reps p => p.ok env ∧ k.γ reps
   | .expandDims k axes p => p.ok env ∧ k.γ axes
-  | .squeeze p => p.ok env ∧ (∀ i, p.static = some i → ∀ b, i.shape ≠ .clipped b)
+  | .squeeze p => p.ok env
   | .reduce k axes _ p => p.ok env ∧ k.γ axes ∧ (∀ s, p.shape env = some s → Pos s)
   | .ufunc1 p => p.ok env
-  | .ufunc2 p q => p.ok env ∧ q.ok env ∧ (∀ a, p.shape env = some a → Pos a) ∧ (∀ b, q.shape env = some b → Pos b) ∧
-      (∀ i j, p.static = some i → q.static = some j → Ufunc2Dom i j)
+  | .ufunc2 p q => p.ok env ∧ q.ok env ∧ (∀ a, p.shape env = some a → Pos a) ∧ (∀ b, q.shape env = some b → Pos b)
   | .concat k axis p q => p.ok env ∧ q.ok env ∧ concatAxisOk k axis
 
 /-- the statically inferred knowledge of ANY composed view type is true of the run-time shape of every instance -/
@@ -754,7 +724,7 @@ theorem static_sound (env : Nat → Shape) : ∀ (p : Prog) {o : SInfo} {t : Sha
   | .squeeze p, o, t, hok, ho, ht => by
       simp only [Prog.static, Option.bind_eq_some_iff] at ho; simp only [Prog.shape, Option.map_eq_some_iff] at ht
       obtain ⟨i, hi, ho⟩ := ho; obtain ⟨s, hs, rfl⟩ := ht
-      exact squeeze_static_sound (static_sound env p hok.1 hi hs) (hok.2 i hi) ho
+      exact squeeze_static_sound (static_sound env p hok hi hs) ho
   | .reduce k axes kd p, o, t, hok, ho, ht => by
       simp only [Prog.static, Option.bind_eq_some_iff] at ho; simp only [Prog.shape, Option.bind_eq_some_iff] at ht
       obtain ⟨i, hi, ho⟩ := ho; obtain ⟨s, hs, ht⟩ := ht
@@ -766,8 +736,8 @@ theorem static_sound (env : Nat → Shape) : ∀ (p : Prog) {o : SInfo} {t : Sha
   | .ufunc2 p q, o, t, hok, ho, ht => by
       simp only [Prog.static, Option.bind_eq_some_iff] at ho; simp only [Prog.shape, Option.bind_eq_some_iff] at ht
       obtain ⟨i, hi, j, hj, ho⟩ := ho; obtain ⟨a, ha, b, hb, ht⟩ := ht
-      obtain ⟨hp, hq, hpa, hpb, hdom⟩ := hok
-      exact ufunc2_static_sound (static_sound env p hp hi ha) (static_sound env q hq hj hb) (hpa a ha) (hpb b hb) (hdom i j hi hj) ht ho
+      obtain ⟨hp, hq, hpa, hpb⟩ := hok
+      exact ufunc2_static_sound (static_sound env p hp hi ha) (static_sound env q hq hj hb) (hpa a ha) (hpb b hb) ht ho
   | .concat k axis p q, o, t, hok, ho, ht => by
       simp only [Prog.static, Option.bind_eq_some_iff] at ho; simp only [Prog.shape, Option.bind_eq_some_iff] at ht
       obtain ⟨i, hi, j, hj, ho⟩ := ho; obtain ⟨a, ha, b, hb, ht⟩ := ht
